@@ -66,16 +66,25 @@ impl PatchList {
         };
 
         let parts: Vec<_> = encoded.split("\r\n").collect();
-        for i in 5..parts.len() - 2 {
+        // Rows that do not have the expected shape (too few columns, non-numeric sizes) are skipped
+        for i in 5..parts.len().saturating_sub(2) {
             let patch_parts: Vec<_> = parts[i].split('\t').collect();
+
+            let needed_columns = if patch_type == PatchListType::Boot { 6 } else { 9 };
+            if patch_parts.len() < needed_columns {
+                continue;
+            }
+            let (Ok(length), Ok(size_on_disk)) = (patch_parts[0].parse(), patch_parts[1].parse()) else {
+                continue;
+            };
 
             if patch_type == PatchListType::Boot {
                 patches.push(PatchEntry {
                     url: patch_parts[5].parse().unwrap(),
                     version: patch_parts[4].parse().unwrap(),
                     hash_block_size: 0,
-                    length: patch_parts[0].parse().unwrap(),
-                    size_on_disk: patch_parts[1].parse().unwrap(),
+                    length,
+                    size_on_disk,
                     hashes: vec![],
                     unknown_a: 0,
                     unknown_b: 0,
@@ -84,9 +93,9 @@ impl PatchList {
                 patches.push(PatchEntry {
                     url: patch_parts[8].parse().unwrap(),
                     version: patch_parts[4].parse().unwrap(),
-                    hash_block_size: patch_parts[6].parse().unwrap(),
-                    length: patch_parts[0].parse().unwrap(),
-                    size_on_disk: patch_parts[1].parse().unwrap(),
+                    hash_block_size: patch_parts[6].parse().unwrap_or_default(),
+                    length,
+                    size_on_disk,
                     hashes: patch_parts[7].split(',').map(|x| x.to_string()).collect(),
                     unknown_a: 0,
                     unknown_b: 0,
